@@ -21,7 +21,7 @@ void __wrap_libast_print_error(const char *fmt, ...)
 void __wrap_libast_print_warning(const char *fmt, ...) { (void) fmt; }
 
 static int g_exec_pp;           /* table variant: exec and theme belong to the pre-parse pass */
-static spifopt_t OPTS[12]; static int NOPT;
+static spifopt_t OPTS[12]; static int NOPT; static int g_rot;
 static void table(void)
 {
     spifopt_t t[] = {
@@ -36,8 +36,10 @@ static void table(void)
         SPIFOPT_ARGS('e', "exec", "e", T.exec),
         SPIFOPT_ABST('t', "theme", "t", handle_theme),
     };
-    memcpy(OPTS, t, sizeof t); NOPT = (int) (sizeof t / sizeof t[0]);
-    if (g_exec_pp) { OPTS[8].flags |= SPIFOPT_FLAG_PREPARSE; OPTS[9].flags |= SPIFOPT_FLAG_PREPARSE; }
+    NOPT = (int) (sizeof t / sizeof t[0]);
+    if (g_exec_pp) { t[8].flags |= SPIFOPT_FLAG_PREPARSE; t[9].flags |= SPIFOPT_FLAG_PREPARSE; }
+    /* the same table contents, rotated by g_rot entries, always at the same address: the order of a table carries no meaning */
+    for (int i = 0; i < NOPT; i++) OPTS[(i + g_rot) % NOPT] = t[i];
 }
 
 /* ------------------------------------------------------------------ semantic items */
@@ -153,13 +155,29 @@ static void free_targets(void)
     if (T.file) FREE(T.file); if (T.display) FREE(T.display);
     if (T.exec) { for (int i = 0; T.exec[i]; i++) FREE(T.exec[i]); FREE(T.exec); }
 }
+static void free_targets(void);
+static void prime(void)
+{
+    static const char *PL[] = { "prog", "-ab", "-v", "-n", "3", "-f", "P", "-d", "Q", "-t", "R", "--gamma", "--count=2", "-e", "w" };
+    char *av[16]; int ac = (int) (sizeof PL / sizeof PL[0]);
+    for (int i = 0; i < ac; i++) av[i] = mc_heapstr(PL[i]);
+    char **argv = malloc(sizeof(char *) * (size_t) (ac + 1)); memcpy(argv, av, sizeof(char *) * (size_t) ac); argv[ac] = NULL;
+    SPIFOPT_OPTLIST_SET(OPTS); SPIFOPT_NUMOPTS_SET(NOPT); SPIFOPT_ALLOWBAD_SET(0); SPIFOPT_BADOPTS_SET(0); SPIFOPT_HELPHANDLER_SET(help_stub);
+    spifopt_settings.flags = 0;
+    spifopt_parse(ac, argv);
+    free_targets();
+    for (int i = 0; i < ac; i++) free(av[i]);
+    free(argv);
+}
 static void a_case(uint64_t idx, void *ctx)
 {
     line_t l; (void) ctx; line_decode(idx, g_k, &l);
     if (!line_valid(&l)) return;
     const char *shape = l.preparse ? (l.remove ? "pre-parse + remove-args" : "pre-parse") : (l.remove ? "remove-args" : "plain");
     mc_set_shape(shape);
-    g_exec_pp = l.exec_pp; table(); reset_targets();
+    /* history: an earlier parse in the same process used the same table storage with the entries in another order */
+    g_exec_pp = l.exec_pp; g_rot = (int) ((idx >> 3) % 10 + 1) % 10; table(); reset_targets(); prime();
+    g_rot = (int) ((idx >> 3) % 10); table(); reset_targets();
     /* argv: exact-size heap strings in an exact-size heap array */
     char *av[24], *orig[24]; int ac = 0; av[ac++] = mc_heapstr("prog");
     for (int i = 0; i < l.n; i++) for (int t = 0; t < 3 && ITEMS[l.it[i]].tok[t]; t++) av[ac++] = mc_heapstr(ITEMS[l.it[i]].tok[t]);
